@@ -96,3 +96,31 @@ fn universal_markers_contract() {
     let m = universal_markers(alphabet_size);
     assert!(m.contains(&0));
 }
+
+/// redirect_final_to_initial: the state count passed to filter_map_transitions is the number of kept states.
+#[kani::proof]
+#[kani::unwind(6)]
+fn redirect_state_count_contract() {
+    let n: usize = kani::any();
+    kani::assume(n >= 1 && n <= 4);
+    let fin: [bool; 4] = kani::any();
+    let initial: usize = kani::any();
+    kani::assume(initial < n);
+    let mut finals = FxHashSet(Vec::new());
+    let mut kept = 0;
+    let mut s = 0;
+    while s < n {
+        if fin[s] {
+            finals.insert(s);
+        }
+        // the filter of the renaming: !final_states.contains(source) || source == initial_state
+        if !fin[s] || s == initial {
+            kept += 1;
+        }
+        s += 1;
+    }
+    let transitions: Vec<u8> = vec![0; n];
+    let st = Finals { final_states: finals, initial_state: initial };
+    let got = redirect_new_nb_states(&transitions, &st);
+    assert!(got == kept);
+}
